@@ -1,14 +1,40 @@
-(* C13 — Validation is exact and makes every operation total.  Statements only. *)
+(* C13 — Validation is exact and makes every operation total.  Statements only; proofs
+   in Proofs/ValidateLaws.v.
+
+   [validate] (Model/Validate.v) is the transliteration of the validating walker;
+   [conforms] (Spec/RefValid.v) is the reference validator written from the property
+   text, independent of the walker (quadratic uniqueness test, no atom dispatch). *)
 From Coq Require Import List ZArith String Bool.
-From SMD Require Import Model.Value Model.Schema Model.Walk Model.Validate Spec.RefValid.
+From SMD Require Import Model.Value Model.PathElem Model.Schema Model.Walk Model.Validate Spec.RefValid
+  Proofs.OrderLaws Proofs.ValidateLaws.
 Import ListNotations.
 
-(* null is accepted in place of any value (of a type that has at least one member) *)
+(* a value is accepted exactly when it conforms: for every schema, type reference,
+   duplicate policy and value *)
+Theorem C13_validation_exact : forall s dup tr v, wf_schema s -> wf_value v = true ->
+  validate s dup tr v = negb (conforms s tr dup v).
+Proof. exact validate_exact. Qed.
+Print Assumptions C13_validation_exact.
+
+(* hence type references that resolve to the same structure validate identically *)
+Theorem C13_equivalent_references : forall s dup tr1 tr2 v, wf_schema s -> wf_value v = true ->
+  (forall d w, conforms s tr1 d w = conforms s tr2 d w) ->
+  validate s dup tr1 v = validate s dup tr2 v.
+Proof.
+  exact (fun s dup tr1 tr2 v Hs Hv H =>
+           eq_trans (validate_exact s dup tr1 v Hs Hv)
+                    (eq_trans (f_equal negb (H dup v)) (eq_sym (validate_exact s dup tr2 v Hs Hv)))).
+Qed.
+Print Assumptions C13_equivalent_references.
+
+(* null is accepted in place of any value *)
 Theorem C13_null_accepted : forall s dup tr a,
   resolve s tr = Some a -> atom_nonempty a = true -> validate s dup tr VNull = false.
-Proof.
-  intros s dup tr a Hr Hne. simpl. rewrite Hr.
-  destruct a as [[sc|] [li|] [ma|]]; simpl in *; try reflexivity; try discriminate.
-  all: destruct sc; reflexivity.
-Qed.
+Proof. exact validate_null_accepted. Qed.
 Print Assumptions C13_null_accepted.
+
+(* path elements computed from well-formed items are well formed (used by C11, C12, C14) *)
+Theorem C13_item_path_elements_wf : forall s t child e, wf_schema s -> wf_value child = true ->
+  list_item_to_pe s t child = Some e -> wf_pe e = true.
+Proof. exact list_item_to_pe_wf. Qed.
+Print Assumptions C13_item_path_elements_wf.
